@@ -25,8 +25,25 @@ def shape(freq, name, parts, B=3, K=2, inter=1, cand=2, extra=(), uw=None, **kw)
         'fill_mly_ymd.*': 4, 'fill_yly_ymd.*': 4, 'fill_mly_ymcw.*': 4, 'fill_yly_ymcw.*': 4, 'fill_yly_ycw.*': 4,
         'fill_yly_ywd.*': 4, 'fill_yly_yd.*': 4, 'fill_yly_eastr.*': 2,
         'fill_mly_ymd_all_d.*': 33, 'fill_yly_ymd_all_d.*': 4, 'fill_yly_ymd_all_m.*': 14, 'fill_yly_md_all.*': 33, 'fill_yly_yd_all.*': 368,
-        FN[freq] + '.*': max(B + 3, 14),
+        # month-skipping loops need up to 12 rounds only when BYMONTH is present (the unwinding assertions check the bound)
+        FN[freq] + '.*': max(B + 3, 14) if 'NMON' in parts else B + 3,
     }
+    if freq == 2:
+        # rrul_fill_mly: exact bounds per loop instead of one bound for all twelve (they nest four deep: a common bound of 6 means
+        # 6^4 copies of the innermost body); the unwinding assertions check every one of them
+        ntimes = max(parts.get('NH', 0), 1) * max(parts.get('NM', 0), 1) * max(parts.get('NS', 0), 1)
+        bymon = 13 if 'NMON' in parts else 2
+        unwindset.update({'rrul_fill_mly.0': parts.get('NDOM', 0) + 2, 'rrul_fill_mly.1': parts.get('NDOM', 0) + 2,
+                          'rrul_fill_mly.2': parts.get('NDOW', 0) + 2, 'rrul_fill_mly.3': parts.get('NDOW', 0) + 2, 'rrul_fill_mly.4': 3,
+                          'rrul_fill_mly.5': bymon, 'rrul_fill_mly.6': bymon, 'rrul_fill_mly.7': ntimes + 2, 'rrul_fill_mly.8': cand + 2,
+                          'rrul_fill_mly.9': 4, 'rrul_fill_mly.10': bymon, 'rrul_fill_mly.11': B + 3})
+    ntimes_all = max(parts.get('NH', 0), 1) * max(parts.get('NM', 0), 1) * max(parts.get('NS', 0), 1)
+    if freq == 4:
+        # rrul_fill_dly: the time-of-day enumeration (.6) and the month carry (.7) nest inside the main loop (.8): exact bounds
+        unwindset.update({'rrul_fill_dly.6': ntimes_all + 2, 'rrul_fill_dly.7': 3})
+    if freq == 5:
+        # rrul_fill_Hly: BYYEARDAY scan (.8), minute/second enumeration (.9), month carry (.10) inside the main loop (.11)
+        unwindset.update({'rrul_fill_Hly.8': parts.get('NDOY', 0) + 2, 'rrul_fill_Hly.9': max(parts.get('NM', 0), 1) * max(parts.get('NS', 0), 1) + 2, 'rrul_fill_Hly.10': 3})
     unwindset.update(uw or {})
     o = dict(name='%s_%s_i%d' % (FNAME[freq], name, inter), src='h_rrul.c', defs=defs, units=U, incl=['src/evrrul.c'], replay_units='all',
              unwind=4, unwindset=unwindset, solver='cadical', timeout=3000 if freq <= 3 else 1200, mem_gb=16 if freq <= 3 else 6,
@@ -52,8 +69,7 @@ def add(freq, name, parts, quick_inters=(1,), all_inters=(1, 2, 3), **kw):
 for f in (1, 2, 3, 4, 5, 6, 7):
     add(f, 'plain', {}, quick_inters=(2,) if f in (4, 5) else (), cand=1)
 # --- monthly, intervals beyond a year (the month/year carry of the period step)
-add(2, 'plain', {}, quick_inters=(), all_inters=(13, 25), cand=1)
-add(2, 'plain_fixday', {}, quick_inters=(13,), all_inters=(13, 25), cand=1, extra=['FIXDAY'])
+add(2, 'plain', {}, quick_inters=(13,), all_inters=(13, 25), cand=1)
 add(1, 'plain', {}, quick_inters=(), all_inters=(5,), cand=1)
 # --- monthly
 add(2, 'bymonthday1', {'NDOM': 1}, quick_inters=(), cand=1)
